@@ -52,7 +52,11 @@ class Gensym:
         """Generates a unique identifier for an existing identifier."""
         ident = self._copy_id(ident)
         while ident in self._idents:
+            # a `NamedId` caches its hash, which covers `count`: build a new
+            # candidate rather than mutate one that has already been hashed,
+            # or the membership test above goes stale and a taken name passes
             ident.count = self._counter
+            ident = self._copy_id(ident)
             self._counter += 1
 
         self._idents.add(ident)
